@@ -66,6 +66,8 @@ def shrink(b, src, pred):
 def load_corpus():
     d = os.path.join(common.VERIF, "corpus", "C11")
     out = []
+    if not os.path.isdir(d):            # no minimised past failures kept (an empty directory is not part of a git checkout)
+        return out
     for f in sorted(os.listdir(d)):
         if f.endswith(".json"):
             j = json.load(open(os.path.join(d, f)))
